@@ -2,7 +2,7 @@
 // what it no longer owns, and only that") through the whole-core simulator.
 //
 //	input  := (K KV0 (ACTION…))      K tasks per environment, KV0: mesos_fid pre-seeded
-//	ACTION := (env POINT) | (kill) | (term) | (drop clean|abrupt) | (destroy N)
+//	ACTION := (env POINT) | (kill) | (term) | (drop clean|abrupt) | (destroy N) | (stubborn silent|killing)
 //	POINT  := launching | configuring | configured | starting | running | stopping | standby | teardown | destroyed
 //	obs    := (EV…)  see world.go:observation and lean/Driver/C18.lean
 package c18
@@ -75,6 +75,70 @@ func grid() []fw.Case {
 	return out
 }
 
+var stubbornModes = []string{"silent", "killing"}
+
+// survivors: orphans that OUTLIVE the KILL of the new life (the KILL is lost / has no effect, or the task hangs
+// in TASK_KILLING), followed by further reconciliation rounds in the same life (the stream is dropped, the core
+// re-subscribes, the master reports the task alive AGAIN) or by yet another life. The property quantifies over
+// "every task of its previous life that Mesos still reports as alive" at every (re-)subscription, so every
+// round must kill again: Spec.C18.orphansKilledEachRound.
+func survivors() []fw.Case {
+	var out []fw.Case
+	n := 0
+	add := func(tags []string, acts ...action) {
+		n++
+		out = append(out, cs(mk(1+n%2, false, acts...), append([]string{"survivor"}, tags...)...))
+	}
+	for _, m := range stubbornModes {
+		st := action{"stubborn", m}
+		tg := "stubborn:" + m
+		// one more round, after a clean and after an abrupt drop; from a settled and from an in-flight point
+		add([]string{tg, "rounds:2", "dist:kill"}, action{"env", "running"}, st, action{"kill", ""}, action{"drop", "clean"})
+		add([]string{tg, "rounds:2", "dist:kill"}, action{"env", "configured"}, st, action{"kill", ""}, action{"drop", "abrupt"})
+		add([]string{tg, "rounds:2", "dist:kill"}, action{"env", "launching"}, st, action{"kill", ""}, action{"drop", "clean"})
+		add([]string{tg, "rounds:2", "dist:term"}, action{"env", "running"}, st, action{"term", ""}, action{"drop", "abrupt"})
+		// two more rounds
+		add([]string{tg, "rounds:3", "dist:kill"}, action{"env", "standby"}, st, action{"kill", ""}, action{"drop", "clean"}, action{"drop", "abrupt"})
+		// the new life owns an environment of its own when the survivor is reported again: kill the one, spare the other
+		add([]string{tg, "rounds:2", "dist:kill", "owning"}, action{"env", "configured"}, st, action{"kill", ""}, action{"env", "running"}, action{"drop", "clean"})
+		// the survivor lives on into a third life, which has to kill it too — and again after a reconnection
+		add([]string{tg, "rounds:3", "dist:kill", "lives:3"}, action{"env", "running"}, st, action{"kill", ""}, action{"kill", ""}, action{"drop", "abrupt"})
+	}
+	return out
+}
+
+// randomSurvivor: 1-2 environments at random points, the tasks made stubborn, the core restarted (SIGKILL, less
+// often SIGTERM), possibly a settled environment created by the new life, then 1-2 further reconciliation rounds
+// (stream drops) or one more restart followed by a drop.
+func randomSurvivor(r *rng.R) fw.Case {
+	s := &scenario{k: r.Range(1, 3), kv0: r.P(1, 8)}
+	mode := rng.Pick(r, stubbornModes)
+	if r.P(1, 3) {
+		s.acts = append(s.acts, action{"env", rng.Pick(r, settledPoints[:3])})
+	}
+	if r.P(1, 2) {
+		s.acts = append(s.acts, action{"env", rng.Pick(r, inflightPoints)})
+	} else {
+		s.acts = append(s.acts, action{"env", rng.Pick(r, settledPoints[:3])})
+	}
+	s.acts = append(s.acts, action{"stubborn", mode})
+	if r.P(1, 4) {
+		s.acts = append(s.acts, action{"term", ""})
+	} else {
+		s.acts = append(s.acts, action{"kill", ""})
+	}
+	if r.P(1, 3) {
+		s.acts = append(s.acts, action{"env", rng.Pick(r, settledPoints[:3])})
+	}
+	if r.P(1, 4) {
+		s.acts = append(s.acts, action{"kill", ""})
+	}
+	for i, n := 0, r.Range(1, 2); i < n; i++ {
+		s.acts = append(s.acts, action{"drop", rng.Pick(r, []string{"clean", "abrupt"})})
+	}
+	return cs(s, "random", "survivor", "stubborn:"+mode)
+}
+
 var settledPoints = []string{"configured", "running", "standby", "destroyed"}
 var inflightPoints = []string{"launching", "configuring", "starting", "stopping", "teardown"}
 
@@ -127,12 +191,17 @@ func randomScenario(r *rng.R) fw.Case {
 
 func generate(tier string, r *rng.R) []fw.Case {
 	out := grid()
-	n := 12
+	n, ns := 12, 6
 	if tier == "thorough" {
-		n = 320
+		n, ns = 320, 80
 	}
 	for i := 0; i < n; i++ {
 		out = append(out, randomScenario(r.Fork()))
+	}
+	// appended after the older cases, so those stay what they were for a given seed
+	out = append(out, survivors()...)
+	for i := 0; i < ns; i++ {
+		out = append(out, randomSurvivor(r.Fork()))
 	}
 	return out
 }
@@ -141,6 +210,9 @@ func search(r *rng.R) []fw.Case {
 	var out []fw.Case
 	for i := 0; i < 60; i++ {
 		out = append(out, randomScenario(r.Fork()))
+	}
+	for i := 0; i < 30; i++ {
+		out = append(out, randomSurvivor(r.Fork()))
 	}
 	return out
 }
@@ -203,7 +275,10 @@ func init() {
 			"(STOP reply parked), STANDBY after RESET, mid-teardown (KILL reaction parked), destroyed} x {SIGKILL+restart, SIGTERM+restart, stream dropped " +
 			"cleanly, stream reset abruptly}, 1-2 tasks; the five in-flight points again next to a second RUNNING environment; 8 sequences of 2-3 " +
 			"disturbances with environments created by the new life in between; 3 scripts with mesos_fid pre-seeded. RANDOM: 12 (thorough 320) scripts of 1-3 " +
-			"disturbances, 0-3 environments at random points, 1-3 tasks, optional destroy. Every disturbance is bracketed by barrier-ordered quiet points " +
+			"disturbances, 0-3 environments at random points, 1-3 tasks, optional destroy. SURVIVORS (tag survivor): the tasks alive before a restart are made " +
+			"stubborn (KILL without effect | task hangs in TASK_KILLING), so the orphans OUTLIVE the new life's KILL, and 1-2 further reconciliation rounds follow in the " +
+			"same life (clean/abrupt stream drop, re-subscription) or a third life: 14 fixed scripts {silent, killing} x {settled, in-flight, after SIGTERM, 3 rounds, " +
+			"new life owning an environment, 3 lives} + 6 (thorough 80) random ones. Every disturbance is bracketed by barrier-ordered quiet points " +
 			"(GetTasks, GetEnvironments, mesos_fid, master's live rows). non-trivial = the master answered a reconciliation about at least one real task; distinct by input text",
 		Shrink:     shrink,
 		Search:     search,
